@@ -165,6 +165,14 @@ fn c02_whole() -> R {
         pre = format!(" after hiding assertions {} and {} ({}/{})", i, j, h1, h2);
         e = r2;
     }
+    // or take one assertion out first (the node is rebuilt by another operation before the whole-envelope form)
+    let asr = e.assertions();
+    if pre.is_empty() && asr.len() >= 3 && flag() {
+        let i = choice(asr.len());
+        op("remove_assertion (before the whole-envelope form)");
+        e = e.remove_assertion(asr[i].clone());
+        pre = format!(" after removing assertion {}", i);
+    }
     let before = bytes(&e);
     rt::note(format!("{}{}", s.show(), pre));
     let form = choice(5);
@@ -281,7 +289,7 @@ pub fn prop_c02() -> Prop {
                 bounds: "every shape of <=5 elements + 4 nested shapes (quick) / <=7 + 21 larger shapes (thorough) x first pass: any single position obscured with any action x second pass over the result: every target set of <=2 digests x {removing, revealing} x 3 actions x every digest order",
                 api: API },
             Scenario { name: "whole", f: c02_whole, thorough_only: false,
-                bounds: "every shape of <=7 (9) elements with known values + larger shapes, as built or with any two of its assertions first hidden in place (each by elide / encrypt / compress) x {elide, encrypt_subject, encrypt/decrypt, compress, compress_subject} x every digest order",
+                bounds: "every shape of <=7 (9) elements with known values + larger shapes, as built, with any two of its assertions first hidden in place (each by elide / encrypt / compress), or with one of >=3 assertions removed first x {elide, encrypt_subject, encrypt/decrypt, compress, compress_subject} x every digest order",
                 api: &["elide", "encrypt_subject", "encrypt", "decrypt", "compress", "compress_subject"] },
         ],
         assumptions: COMMON_ASSUMPTIONS.to_vec(),
